@@ -440,6 +440,7 @@ type LetDef struct {
 }
 
 type AssignsItem struct {
+	Callback string // effects(<named func type>): whatever that callback type's contract assigns
 	All   bool
 	Text  string
 	Expr  SExpr  // location-level: expr.field / expr[*]
@@ -482,6 +483,7 @@ type Contract struct {
 }
 
 type LemmaStep struct {
+	Assume bool
 	Call   bool
 	Name   string // result binding for calls
 	Fun    string
@@ -602,6 +604,10 @@ func ParseSpecFile(path string, data []byte, defaultPkg string) (*SpecFile, erro
 				items = append(items, AssignsItem{All: true, Text: part})
 				continue
 			}
+			if strings.HasPrefix(part, "effects(") && strings.HasSuffix(part, ")") {
+				items = append(items, AssignsItem{Callback: strings.TrimSpace(part[8 : len(part)-1]), Text: part})
+				continue
+			}
 			if i := strings.Index(part, "::"); i >= 0 {
 				items = append(items, AssignsItem{TypeT: strings.TrimSpace(part[:i]), Field: strings.TrimSpace(part[i+2:]), Text: part})
 				continue
@@ -683,6 +689,14 @@ func ParseSpecFile(path string, data []byte, defaultPkg string) (*SpecFile, erro
 			}
 			cur.Records = append(cur.Records, cl)
 		case "requires", "ensures", "invariant", "decreases", "cb_requires", "cb_ensures":
+			if cur == nil && curLemma != nil && s.kw == "requires" {
+				cl, err := mkClause(s)
+				if err != nil {
+					return nil, err
+				}
+				curLemma.Steps = append(curLemma.Steps, LemmaStep{Assume: true, Clause: cl})
+				continue
+			}
 			if cur == nil {
 				return nil, fmt.Errorf("%s:%d: %s outside func", path, s.line, s.kw)
 			}
